@@ -15,9 +15,13 @@ RULE = (
     "one evaluation per (schema, value); non-trivial = ref6 finds >=1 applicable keyword "
     "other than type at the root; distinct = distinct (canon(schema), canon(value))"
 )
+RULE += (
+    ' A quarter of the schemas are parsed through the documented loader (materialize + title_labeller) instead of parse_element; about one case in sixteen adds a format name that is registered only AFTER the first round of calls (same element and a newly parsed one are judged again, now with the format in the oracle).'
+)
 ASSUMPTIONS = [
     "oracle = vlib/ref6.py (own Draft-6 reading), self-checked per case against jsonschema.Draft6Validator",
-    "numbers: |int|<2^31 and dyadic floats (exact IEEE arithmetic), plus integers up to 2^64 when no float multipleOf is involved (integer arithmetic is exact); other extremes belong to C10",
+    "numbers: |int|<2^31 and dyadic floats (exact IEEE arithmetic), plus integers up to 2^64 (and a few exactly representable floats up to 2^70); every multipleOf is an integer or a dyadic float, so 'is a multiple' has one answer whatever the arithmetic; other extremes belong to C10",
+    "jsonschema self-check is skipped for (float multipleOf, |number| > 2^53): jsonschema divides in floating point there",
     "regex patterns from a pool on which ECMA-262 and Python re agree",
     "property-name pool has pairwise distinct Python images (collisions belong to C12)",
     "required-with-default waiver is three-valued ('either'): both accept and reject are tolerated",
@@ -46,10 +50,26 @@ BIG_INTS = [2 ** 53 + 1, 9007199254740993, 7 * 10 ** 16 + 1, 2 ** 64, 3 * 2 ** 6
             6 * 10 ** 17, 2 ** 53, 35 * 2 ** 50 + 7]
 
 
+BIG_FLOATS = [float(2 ** 60), float(3 * 2 ** 60), float(2 ** 53 + 2), float(2 ** 70), 1.5 * 2 ** 60]
+
+
 def _float_multiple(schema):
     found = []
-    sg.walk(schema, lambda s, p: found.append(1) if isinstance(s, dict) and isinstance(s.get("multipleOf"), float) else None)
-    return bool(found)
+    sg.walk(schema, lambda s, p: found.append(s["multipleOf"])
+            if isinstance(s, dict) and isinstance(s.get("multipleOf"), float) else None)
+    return found
+
+
+def _has_big(value):
+    if isinstance(value, bool):
+        return False
+    if isinstance(value, (int, float)):
+        return abs(value) >= 2 ** 50
+    if isinstance(value, list):
+        return any(_has_big(v) for v in value)
+    if isinstance(value, dict):
+        return any(_has_big(v) for v in value.values())
+    return False
 
 
 @st.composite
@@ -64,12 +84,40 @@ def cases(draw, c):
             m = schema["multipleOf"]
             big += [m * draw(st.sampled_from(BIG_INTS)), m * draw(st.sampled_from(BIG_INTS)) + 1]
         values = values + big + [[b] for b in big[:1]] + [{"a": big[0]}]
-    return {"schema": schema, "values": values}
+    elif isinstance(schema, dict) and _float_multiple(schema) and draw(st.integers(0, 2)) == 0:
+        # numbers beyond 2**53 against a dyadic float multipleOf: the answer is exact mathematics, float division
+        # is not (2**53 + 1 is not a multiple of 2.0)
+        big = draw(st.lists(st.sampled_from(BIG_INTS + BIG_FLOATS), min_size=1, max_size=2))
+        for m in _float_multiple(schema)[:2]:
+            k = draw(st.sampled_from(BIG_INTS))
+            if m.is_integer():
+                big += [int(m) * k, int(m) * k + 1]
+            else:
+                big += [k, int(m * 4) * k]
+        values = values + big + [[b] for b in big[:1]] + [{"a": big[0]}]
+    case = {"schema": schema, "values": values, "pipeline": draw(st.sampled_from(observe.PIPELINES))}
+    if isinstance(schema, dict) and draw(st.integers(0, 15)) == 7:
+        # "only registered string formats are checked" holds at every moment: a name nobody has registered when the
+        # element is first used, registered afterwards (a fresh name per case: nothing to undo)
+        name = "vf-late"  # placeholder: the predicate substitutes a name never used in its process before
+        where = draw(st.sampled_from(["root", "items", "property"]))
+        late = {"format": name}
+        if where == "root":
+            case["schema"] = {"allOf": [schema, late]}
+        elif where == "items":
+            case["schema"] = {"allOf": [schema, {"items": late}]}
+        else:
+            case["schema"] = {"allOf": [schema, {"properties": {"a": late}}]}
+        case["late_format"] = name
+        case["values"] = values + ["ab", "abc", "", ["ab", "abc"], {"a": "abc"}, {"a": "ab"}]
+    return case
 
 
 def self_check(schema, value):
     if not _HAVE_JS:
         return
+    if _has_big(value) and isinstance(schema, dict) and _float_multiple(schema):
+        return "skipped"
     mine = ref6.validate(schema, value, _PURE)
     try:
         theirs = jsonschema.Draft6Validator(schema).is_valid(value)
@@ -81,10 +129,22 @@ def self_check(schema, value):
         )
 
 
+_LATE = itertools.count()
+
+
 def predicate(case, stats):
     schema, values = case["schema"], case["values"]
+    if case.get("late_format"):
+        import json
+        import os
+
+        fresh_name = "vf-late-%d-%d" % (os.getpid(), next(_LATE))
+        schema = json.loads(json.dumps(schema).replace('"format": "%s"' % case["late_format"],
+                                                      '"format": "%s"' % fresh_name))
+        case = dict(case, schema=schema, late_format=fresh_name, key_schema=case["schema"])
     fails = []
-    parsed = observe.safe_parse(schema)
+    parsed = observe.safe_parse(schema, case.get("pipeline"))
+    stats.classes["pipeline:" + case.get("pipeline", "plain")] += 1
     if parsed[0] != "ok":
         stats.case(canon(schema), False, ["parse:" + parsed[0]])
         return [{"sub": "parse", "kind": "parse-refused:" + parsed[1], "detail": list(parsed)}]
@@ -94,11 +154,37 @@ def predicate(case, stats):
         sg.walk(schema, lambda s, p: pairs.update(
             "pair:" + "+".join(pr) for pr in itertools.combinations(sorted(sg.groups_in(s)), 2)
         ))
+    rounds = [(element, _DEV, "")]
+    if case.get("late_format"):
+        late_pred = lambda s: len(s) % 2 == 0  # noqa: E731
+        late_opts = ref6.Opts(int_is_int=True, formats={**sg.FORMAT_PREDICATES, case["late_format"]: late_pred},
+                              waiver=True)
+        rounds += [("register", None, None), (element, late_opts, "after-late-registration:"),
+                   ("reparse", late_opts, "after-late-registration(new element):")]
+        stats.classes["late-format-registration"] += 1
+    for element, opts, label in rounds:
+        if element == "register":
+            from statham.schema.validation.format import format_checker
+            format_checker.register(case["late_format"])(late_pred)
+            continue
+        if element == "reparse":
+            again = observe.safe_parse(schema, case.get("pipeline"))
+            if again[0] != "ok":
+                continue
+            element = again[1]
+        fails += judge(element, schema, values, opts, label, stats, case.get("key_schema", schema))
+    for p in pairs:
+        stats.classes[p] += 1
+    return fails
+
+
+def judge(element, schema, values, opts, label, stats, key_schema):
+    fails = []
     for value in values:
-        if self_check(schema, value) == "skipped":
-            stats.classes["selfcheck-skipped(jsonschema crashed)"] += 1
+        if not label and self_check(schema, value) == "skipped":
+            stats.classes["selfcheck-skipped(jsonschema crash or float multipleOf beyond 2^53)"] += 1
         trace = ref6.Trace()
-        expected = ref6.validate(copy.deepcopy(schema), copy.deepcopy(value), _DEV, trace)
+        expected = ref6.validate(copy.deepcopy(schema), copy.deepcopy(value), opts, trace)
         got = observe.verdict(element, value)
         nontrivial = bool(trace.applicable - {"type"})
         classes = ["expect:" + {True: "valid", False: "invalid", None: "either"}[expected]]
@@ -106,20 +192,18 @@ def predicate(case, stats):
         if got[0] == "reject" and got[1] == "TypeError":
             classes.append("rejected-by-TypeError")
         stats.case(
-            canon([schema, value]), nontrivial, classes,
+            canon([label, key_schema, value]), nontrivial, classes,
             sample={"schema": schema, "value": value, "draft6": expected, "statham": got[0]},
         )
         if got[0] not in ("ok", "reject"):
-            fails.append({"sub": "call", "kind": "crash:" + str(got[1] if len(got) > 1 else got[0]),
+            fails.append({"sub": "call", "kind": label + "crash:" + str(got[1] if len(got) > 1 else got[0]),
                           "value": value, "detail": list(map(str, got))})
         elif expected is True and got[0] != "ok":
-            fails.append({"sub": "call", "kind": "rejects-valid", "value": value,
+            fails.append({"sub": "call", "kind": label + "rejects-valid", "value": value,
                           "failed_keywords": sorted(trace.failed), "detail": list(map(str, got))})
         elif expected is False and got[0] != "reject":
-            fails.append({"sub": "call", "kind": "accepts-invalid", "value": value,
+            fails.append({"sub": "call", "kind": label + "accepts-invalid", "value": value,
                           "failed_keywords": sorted(trace.failed)})
-    for p in pairs:
-        stats.classes[p] += 1
     return fails
 
 
